@@ -6,7 +6,10 @@ Driver glue for `life.run` records (C11).
 
 * `H1/H0:<clause>`: the monitors of `Spec/LifecycleSpec.lean` on the observed trace.
 * `EQ/NE`: trace validation — the observed trace is accepted by the LTS of `Model/Lifecycle.lean`
-  (set-of-states simulation; unobserved program steps are τ).  Deliveries are logged by a goroutine of the
+  (set-of-states simulation; unobserved program steps are τ); the goroutine census before the cancellation (`gorc`) is
+  bounded by the goroutines the model has alive (main loop + writers not yet exited), and the socket of connection k is
+  seen closing no later than shortly after the k-th disconnect callback (`closeOrder`: the model closes before it calls
+  back).  Both are comparisons with the model, not clauses of the property.  Deliveries are logged by a goroutine of the
   harness and may be recorded late relative to the client's own events, so `takeFrame`/`deliver` are τ steps and the
   observed `del` events are checked by count (never more observed than the model has delivered, equal at the end).
   The panel's `tx` events are fed byte by byte (`byteArrive fin`, `fin` from the frame boundaries of the scripted
@@ -250,6 +253,25 @@ def simulate (sc : Script) (toks : List String) (tr : List TEv) : SimRes := Id.r
   if S.any (fun s => totalDelivered s = dels) then return { ok := true, cancelPhases := cph }
   else return { ok := false, why := "reject@end:delivery-count", cancelPhases := cph }
 
+/-- Model: the teardown closes the socket (`connClose`, connecttopanel.go 236) BEFORE it reports the disconnect
+(`onDisconnect`, 239).  Observable counterpart: the panel sees the end of connection k no later than shortly after the
+k-th disconnect callback (`closeTolMs` + the recorder's lag).  A comparison with the model, not a clause of the property
+(which only demands every socket closed once the call has returned). -/
+def closeTolMs : Nat := 300
+
+def closeOrder (tr0 : List TEv) : Option String :=
+  let tr := Spec.Lifecycle.upToEnd tr0
+  let lagMs := Spec.Lifecycle.lagOf tr
+  let ks := (List.range (Spec.Lifecycle.accCount tr)).map (· + 1)
+  let late := ks.filter (fun k =>
+    match tr.find? (fun x => match x.e with | .dis k' _ => k' = k | _ => false),
+          tr.find? (fun x => match x.e with | .peof k' _ => k' = k | _ => false) with
+    | some d, some p => p.t > d.t + closeTolMs + lagMs
+    | _, _ => false)
+  match late with
+  | [] => none
+  | k :: _ => some s!"socket-closed-after-disconnect-callback@conn{k}"
+
 def modeName : Mode → String
   | .absent => "absent" | .refuse => "refuse" | .silent => "silent" | .bin => "bin" | .asc => "asc" | .late => "late"
 
@@ -269,6 +291,9 @@ def step (cmd : String) (args : List String) (impl : String) : String :=
       let hooked := tr.any (fun x => match x.e with | .hk _ => true | _ => false)
       let tags := s!"B:mode={modeName sc.mode}" ++ String.join (sim.cancelPhases.map (fun p => s!" B:cancel@{p}"))
         ++ (if sc.park > 0 then (if hooked then " B:parked" else " B:nohook") else "")
-      if sim.ok then s!"EQ {hs} {tags}" else s!"NE {hs} {sim.why} {tags}"
+      if !sim.ok then s!"NE {hs} {sim.why} {tags}"
+      else match closeOrder tr with
+        | some c => s!"NE {hs} model:{c} {tags}"
+        | none => s!"EQ {hs} {tags}"
 
 end RawPanelVerif.Driver.Lifecycle
